@@ -433,3 +433,20 @@ Proof.
   exists bs, s'. split; [exact E1|]. split; [exact E2|]. intros pre Hpre. split; [apply S, Hpre|].
   intros t. rewrite (S pre Hpre). apply run_ops_app.
 Qed.
+
+Lemma c20_roles_opaque d gl ki fg bg ul :
+  rgba_ok fg = true -> rgba_ok bg = true -> rgba_ok ul = true ->
+  ca fg = 255%N -> ca bg = 255%N -> ca ul = 255%N ->
+  exists bs,
+    encode_c20 (mkCaps d gl ki) (FaceModify (colours_fm fg bg ul)) = Ok bs /\
+    vt_complete bs = true /\
+    vt_ops bs =
+      [OSgr match d with
+            | TrueColor => only_colours (Some (CRgb (cr fg) (cg fg) (cb fg))) (Some (CRgb (cr bg) (cg bg) (cb bg)))
+                                        (Some (CRgb (cr ul) (cg ul) (cb ul)))
+            | EightBit => only_colours (Some (CIdx (pal256_exact fg))) (Some (CIdx (pal256_exact bg)))
+                                       (Some (CIdx (pal256_exact ul)))
+            | Gray => only_colours (Some (CIdx (gray_entry (gray4_exact fg)))) (Some (CIdx (gray_entry (gray4_exact bg))))
+                                   None
+            end].
+Proof. intros Hf Hb Hu _ _ _. apply c20_roles; assumption. Qed.
